@@ -365,26 +365,36 @@ def r03c(ctx, run):
     # target of every break/return to this block, registered in self.exits) compiles none - a jump can come from before a later
     # `defer` statement, and an unreached defer must not run
     fn = F.fn(FC + "::compile_expr_with_args")
-    own_sites = [(c, ch) for f2, c, nx, ch in sites if f2 is fn]
-    if len(own_sites) != 1:
-        raise LookupError("site compiling a block's own defers: %d" % len(own_sites))
-    c, ch = own_sites[0]
+    # where the Block arm compiles the block's own defers: a loop over the innermost frame's defers in the arm itself, or calls of a helper method
+    # that is such a loop (over defer_stack.last())
+    unw = unwinder_fn(ctx)
+    site_blocks = []        # (block that runs the defers, call used for reporting)
+    for f2, c2, nx2, ch2 in sites:
+        if f2 is fn:
+            lp = [(h2, b2) for h2, b2 in fn.loops() if c2.bb in b2]
+            site_blocks.append((min(lp, key=lambda hb: len(hb[1]))[0] if lp else c2.bb, c2))
+        elif f2 is not unw and any(short(x["callee"]) in ("last", "last_mut") for x in chain_calls(ch2)):
+            hname = short(strip_generics(f2.path))
+            for x in fn.calls():
+                if short(x.callee) == hname and "FunctionCompiler" in x.callee:
+                    site_blocks.append((x.bb, x))
+    if not site_blocks:
+        raise LookupError("site compiling a block's own defers: 0")
+    c = site_blocks[0][1]
     exit_creates = set()
     for ins in fn.calls():
         if short(ins.callee) == "insert" and ins.args and field_of_self(fn.chain_operand(ins.args[0], depth=5), "exits"):
             for x in chain_calls(fn.chain_operand(ins.args[2], depth=8)):
                 if short(x["callee"]) == "create_block":
                     exit_creates.add((x["ln"], x.get("bb")))
-    # the exit block of the Block arm: the registered create_block that dominates the site
-    mine = {(ln, bb) for ln, bb in exit_creates if bb is not None and fn.dominates(bb, c.bb)}
+    # the exit block of the Block arm: the registered create_block that dominates the sites
+    mine = {(ln, bb) for ln, bb in exit_creates if bb is not None and any(fn.dominates(bb, sb) for sb, _ in site_blocks)}
 
     def refers(call, idx):
         return len(call.args) > idx and any(short(y["callee"]) == "create_block" and (y["ln"], y.get("bb")) in mine for y in chain_calls(fn.chain_operand(call.args[idx], depth=8)))
-    in_exit = [x for x in fn.calls() if short(x.callee) == "switch_to_block" and refers(x, 1) and fn.dominates(x.bb, c.bb)]
+    in_exit = [x for x in fn.calls() if short(x.callee) == "switch_to_block" and refers(x, 1) and any(fn.dominates(x.bb, sb) for sb, _ in site_blocks)]
     jumps = [x for x in fn.calls() if short(x.callee) == "jump" and refers(x, 1)]
-    loops_of_c = [(h2, b2) for h2, b2 in fn.loops() if c.bb in b2]
-    hdr = min(loops_of_c, key=lambda hb: len(hb[1]))[0] if loops_of_c else c.bb
-    late = [x for x in jumps if not fn.dominates(hdr, x.bb)]
+    late = [x for x in jumps if not any(fn.dominates(sb, x.bb) for sb, _ in site_blocks)]
     good = bool(mine) and not in_exit and bool(jumps) and not late
     run.check(good, c.site(), "Block arm: own defers compiled on the fall-through path before each of the %d jumps to the exit block; the exit block compiles none" % len(jumps),
               FC + "::compile_expr_with_args", "block-exit", c.file, c.ln,
